@@ -430,3 +430,140 @@ func roundCases(w *casefile.Writer, r *rng.R, n int) {
 			"lex-roundtrip", len(exp) >= 2, in, map[string]any{"tokens": ltokJSON(lr.toks)})
 	}
 }
+
+// ---------------------------------------------------------------- in(..) = OR of its members
+
+var inFields = []string{"t", "m", "t", "p", "k", "m"}
+var inElems = []string{`"connection refused"`, `timed-out`, `"Mixed Case"`, `'a.b,c d'`, `x`, `"a b"`, `c*d`, `"x*y z"`, "`raw words`", `UPPER`,
+	`"a_b-c"`, "\"\u00e9 \u00e8\"", `""`, `"Timed-Out now"`, `v1`, `"v1 v2"`, `"/a/b c"`, `a/b`, `"c d"`}
+
+// fixed lists that always run: multi-word members in every position
+var inFixed = [][]string{
+	{"t", `"a b"`, `"c d"`}, {"t", `x`, `"connection refused"`, `timed-out`}, {"m", `"Mixed Case"`, `"Connection Refused"`},
+	{"t", `a`, `"b c"`}, {"t", `"a b"`, `c`, `"d e"`}, {"p", `"/a/b c"`, `"/d e"`}, {"k", `"a b"`, `"c d"`}, {"m", `timed-out`, `Timed-Out`},
+}
+
+// numbered AST: every distinct literal (by its printed form) gets the next number
+func astNumbered(n *parser.ASTNode, ids map[string]int) (string, error) {
+	if n == nil {
+		return "", fmt.Errorf("nil node")
+	}
+	lg, ok := n.Value.(*parser.Logical)
+	if !ok {
+		key := n.String()
+		id, seen := ids[key]
+		if !seen {
+			id = len(ids)
+			ids[key] = id
+		}
+		return fmt.Sprintf("(Leaf %d)", id), nil
+	}
+	var cs []string
+	for _, c := range n.Children {
+		s, err := astNumbered(c, ids)
+		if err != nil {
+			return "", err
+		}
+		cs = append(cs, s)
+	}
+	op := parser.VerifLogicalOp(lg)
+	switch {
+	case op == parser.VerifNot && len(cs) == 1:
+		return "(NotN " + cs[0] + ")", nil
+	case op == parser.VerifAnd && len(cs) == 2:
+		return "(AndN " + cs[0] + " " + cs[1] + ")", nil
+	case op == parser.VerifOr && len(cs) == 2:
+		return "(OrN " + cs[0] + " " + cs[1] + ")", nil
+	case op == parser.VerifNAnd && len(cs) == 2:
+		return "(NAndN " + cs[0] + " " + cs[1] + ")", nil
+	}
+	return "", fmt.Errorf("operator %d with %d children", op, len(cs))
+}
+
+func inOrCase(w *casefile.Writer, field string, elems []string, ctx int, suffix string) {
+	qin := field + ":in(" + strings.Join(elems, ", ") + ")"
+	parts := make([]string, len(elems))
+	for i, e := range elems {
+		parts[i] = field + ":" + e
+	}
+	qor := strings.Join(parts, " or ")
+	switch ctx {
+	case 1:
+		qin, qor = "not "+qin, "not ("+qor+")"
+	case 2:
+		qin, qor = qin+" and k:z", "("+qor+") and k:z"
+	case 3:
+		qin, qor = "k:z or not "+qin, "k:z or not ("+qor+")"
+	}
+	qin, qor = qin+suffix, qor+suffix
+	in := map[string]any{"query": qin, "query_or": qor, "field": field, "members": elems}
+	ids := map[string]int{}
+	var out [2]string
+	var txt [2]string
+	for i, q := range []string{qin, qor} {
+		var root *parser.ASTNode
+		res := guarded(func() error {
+			sq, err := parser.ParseSeqQL(q, fuzzMapping)
+			root = sq.Root
+			return err
+		})
+		w.Evals(1)
+		switch {
+		case res.hung:
+			w.Violate("hang:ParseSeqQL", "ParseSeqQL does not return", map[string]any{"query": q})
+			return
+		case res.panicked != nil:
+			w.Violate("panic:ParseSeqQL:"+fpOf(fmt.Sprint(res.panicked)), fmt.Sprintf("ParseSeqQL panics: %v", res.panicked), map[string]any{"query": q})
+			return
+		case res.isErr:
+			out[i], txt[i] = "Err", "error"
+		default:
+			s, err := astNumbered(root, ids)
+			if err != nil {
+				w.Violate("shape:ParseSeqQL", err.Error(), map[string]any{"query": q})
+				return
+			}
+			out[i], txt[i] = "(Ok "+s+")", root.String()
+		}
+	}
+	if len(ids) > 8 {
+		w.Count("in-or:skipped-more-than-8-literals")
+		return
+	}
+	lr1, p1, h1 := realLex(qin)
+	lr2, p2, h2 := realLex(qor)
+	if p1 != nil || p2 != nil || h1 || h2 {
+		w.Violate("panic-or-hang:lexer", "lexer fails on an in(..) query", in)
+		return
+	}
+	multi := false
+	for _, e := range elems[1:] {
+		multi = multi || strings.ContainsAny(e, " -.,/")
+	}
+	if multi {
+		w.Count("in-or:later-member-multi-word")
+	}
+	w.Add(fmt.Sprintf("CInOr %s %s %s fm_full fm_builtin %s %s", coqBytes(qin), coqBytes(qor),
+		classTable(qin+" "+qor, append(append([]parser.VerifTok{}, lr1.toks...), lr2.toks...)), out[0], out[1]),
+		"in-or-"+field, multi && out[0] != "Err", in, map[string]any{"in": txt[0], "or": txt[1]})
+}
+
+func inOrCases(w *casefile.Writer, r *rng.R, n int) {
+	for _, f := range inFixed {
+		for ctx := 0; ctx < 4; ctx++ {
+			inOrCase(w, f[0], f[1:], ctx, "")
+		}
+	}
+	for i := 0; i < n; i++ {
+		k := r.Range(2, 4)
+		elems := make([]string, k)
+		for j := range elems {
+			elems[j] = rng.Pick(r, inElems)
+		}
+		suffix := ""
+		if r.Chance(1, 5) {
+			suffix = rng.Pick(r, pipeSuffixes)
+		}
+		inOrCase(w, rng.Pick(r, inFields), elems, r.Intn(4), suffix)
+	}
+}
